@@ -219,9 +219,24 @@ Section FSM.
 
   Inductive step :=
   | SApply (n : nat)                 (* raft hands log entry number n (0-based position) to Apply *)
-  | SSnapshot (t : Z) (ok : bool)    (* Snapshot at compaction time t, then Persist succeeds / fails *)
+  | SSnapshot (t : Z) (k : nat) (ok : bool)
+                                     (* FSM.Snapshot() at compaction time t; raft hands k more entries to Apply
+                                        while the snapshot goroutine has not called Persist yet; then Persist of
+                                        THAT snapshot object succeeds / fails.  raft files the snapshot under the
+                                        index it had when Snapshot() was called. *)
   | SRestore                         (* Restore(latest persisted snapshot) on the running FSM *)
   | SRestart.                        (* process exit + start: fresh FSM, Restore(latest) if any *)
+
+  (* raft hands the next k entries of the log to Apply *)
+  Fixpoint apply_n (L : list entry) (k : nat) (w : world) : world :=
+    match k with
+    | Datatypes.O => w
+    | Datatypes.S k' =>
+        match nth_error L (w_applied w) with
+        | Some e => apply_n L k' (mkWorld (apply_entry (w_fsm w) e) (Datatypes.S (w_applied w)) (w_persisted w))
+        | None => w
+        end
+    end.
 
   Definition do_step (v : variant) (L : list entry) (w : world) (st : step) : world :=
     match st with
@@ -230,12 +245,15 @@ Section FSM.
         | Some e => mkWorld (apply_entry (w_fsm w) e) (Datatypes.S n) (w_persisted w)
         | None => w
         end
-    | SSnapshot t ok =>
+    | SSnapshot t k ok =>
         match fsm_snapshot v t (w_fsm w) with
         | None => w
         | Some (f', sn) =>
-            mkWorld f' (w_applied w)
-                    (if ok then persist f' sn (w_applied w) :: w_persisted w else w_persisted w)
+            let w2 := apply_n L k (mkWorld f' (w_applied w) (w_persisted w)) in
+            (* Persist reads the store as it is NOW, bounded by the snapshot's firstIndex/lastIndex;
+               the snapshot is filed under the number of entries applied when Snapshot() ran *)
+            mkWorld (w_fsm w2) (w_applied w2)
+                    (if ok then persist (w_fsm w2) sn (w_applied w) :: w_persisted w else w_persisted w)
         end
     | SRestore =>
         match w_persisted w with
